@@ -124,6 +124,10 @@ impl Parse for FmtAttribute {
             args: input.parse_terminated(FmtArgument::parse, token::Comma)?,
         };
         parsed.args.pop_punct();
+        if parsed.args.is_empty() {
+            // A trailing comma after the literal alone (`"lit",`) must not be re-emitted.
+            parsed.comma = None;
+        }
         Ok(parsed)
     }
 }
